@@ -414,11 +414,16 @@ def run(repo, rep, tier):
     for e in ea.summ.get(post.fq, {}).values():
         if e.kind == 'assert':
             continue
-        if e.file != LS and not ea.h.is_sub(e.exc, 'Error'):
+        if not (e.file == LS or (e.file == 'pywbem/_tupletree.py' and
+                                 e.kind == 'conv')) and \
+                not ea.h.is_sub(e.exc, 'Error'):
             # non-pywbem exceptions leaking out of the CIM-XML parser are
             # the subject of C02 (same parser, same analysis); here the
-            # listener's own code and the coverage of the parser's pywbem
-            # errors by the except chain are judged
+            # listener's own code, the conversions (ord/int/float) that
+            # the XML text layer applies to the raw request text
+            # (_tupletree.py; its argument-type checks are discharged in
+            # C02 from the call sites), and the coverage of the parser's
+            # pywbem errors by the except chain are judged
             continue
         r2.ob(False, '%s|%s|%s' % (e.func, e.construct, e.exc),
               {'origin': '%s: %s' % (e.func, e.construct),
